@@ -391,11 +391,20 @@ func c03fWriteCoq(dir string) {
 }
 
 func c03fCoqText() string {
+	var ns []string
+	for _, d := range c03fWirings {
+		ns = append(ns, d.name)
+	}
+	return c03fCoqTextFor(ns, "fm_")
+}
+
+// c03fCoqTextFor: the same text for any list of wirings; pre is the prefix of the name definitions (one per section of the file)
+func c03fCoqTextFor(wnames []string, pre string) string {
 	var sb strings.Builder
 	names := map[string]bool{}
 	var ws []*wiring
-	for _, d := range c03fWirings {
-		w := wiringByName(d.name)
+	for _, wn := range wnames {
+		w := wiringByName(wn)
 		w.derive()
 		ws = append(ws, w)
 		for _, s := range w.Stores {
@@ -421,7 +430,7 @@ func c03fCoqText() string {
 	}
 	sort.Strings(ns)
 	for _, n := range ns {
-		fmt.Fprintf(&sb, "Definition fm_%s : name := %s.\n", n, c03fCoqName(n))
+		fmt.Fprintf(&sb, "Definition "+pre+"%s : name := %s.\n", n, c03fCoqName(n))
 	}
 	sb.WriteString("\n")
 	b := func(x bool) string {
@@ -438,41 +447,41 @@ func c03fCoqText() string {
 			}
 			parent := "None"
 			if s.Parent != "" {
-				parent = "(Some fm_" + s.Parent + ")"
+				parent = "(Some " + pre + s.Parent + ")"
 			}
 			var fs, ss, cs, ls []string
 			for _, f := range s.Fields {
-				fs = append(fs, fmt.Sprintf("(fm_%s, %s)", f.Name, b(f.Ptr)))
+				fs = append(fs, fmt.Sprintf("("+pre+"%s, %s)", f.Name, b(f.Ptr)))
 			}
 			for _, x := range s.Sets {
-				ss = append(ss, "fm_"+x)
+				ss = append(ss, pre+x)
 			}
 			for _, c := range s.Cons {
 				switch c.Kind {
 				case "U":
-					cs = append(cs, fmt.Sprintf("CUnique fm_%s %s", c.Field, b(c.Flag)))
+					cs = append(cs, fmt.Sprintf("CUnique "+pre+"%s %s", c.Field, b(c.Flag)))
 				case "SI":
-					cs = append(cs, "CSetIdx fm_"+c.Field)
+					cs = append(cs, "CSetIdx "+pre+c.Field)
 				case "FI":
-					cs = append(cs, fmt.Sprintf("CFkIndex fm_%s fm_%s fm_%s %s", c.Field, c.Target, c.Back, b(c.Flag)))
+					cs = append(cs, fmt.Sprintf("CFkIndex "+pre+"%s "+pre+"%s "+pre+"%s %s", c.Field, c.Target, c.Back, b(c.Flag)))
 				case "FR":
-					cs = append(cs, "CFkRestrict fm_"+c.Back)
+					cs = append(cs, "CFkRestrict "+pre+c.Back)
 				case "FC":
-					cs = append(cs, fmt.Sprintf("CFkCons fm_%s fm_%s %s", c.Field, c.Target, b(c.Flag)))
+					cs = append(cs, fmt.Sprintf("CFkCons "+pre+"%s "+pre+"%s %s", c.Field, c.Target, b(c.Flag)))
 				case "CA":
 					casc := "CascNone"
 					if c.Casc == "D" {
 						casc = "CascDelete"
 					}
-					cs = append(cs, fmt.Sprintf("CFkCascade fm_%s fm_%s %s", c.Target, c.Field, casc))
+					cs = append(cs, fmt.Sprintf("CFkCascade "+pre+"%s "+pre+"%s %s", c.Target, c.Field, casc))
 				case "SY":
 					cs = append(cs, "CSystem")
 				}
 			}
 			for _, l := range s.Links {
-				ls = append(ls, fmt.Sprintf("(fm_%s, fm_%s, fm_%s)", l.Local, l.Other, l.OtherField))
+				ls = append(ls, fmt.Sprintf("("+pre+"%s, "+pre+"%s, "+pre+"%s)", l.Local, l.Other, l.OtherField))
 			}
-			fmt.Fprintf(&sb, "mkSdef fm_%s %s %s [%s] [%s]\n      [%s] [%s]", s.Name, parent, b(s.Ext),
+			fmt.Fprintf(&sb, "mkSdef "+pre+"%s %s %s [%s] [%s]\n      [%s] [%s]", s.Name, parent, b(s.Ext),
 				strings.Join(fs, "; "), strings.Join(ss, "; "), strings.Join(cs, "; "), strings.Join(ls, "; "))
 		}
 		sb.WriteString(" ].\n")
@@ -480,13 +489,13 @@ func c03fCoqText() string {
 			for _, c := range s.Cons {
 				switch {
 				case c.Kind == "U" && s.Parent == "":
-					fmt.Fprintf(&sb, "Example %s_wf_unique_%s_%s : wf_unique_b %s_schema fm_%s fm_%s = true.\nProof. vm_compute. reflexivity. Qed.\n",
+					fmt.Fprintf(&sb, "Example %s_wf_unique_%s_%s : wf_unique_b %s_schema "+pre+"%s "+pre+"%s = true.\nProof. vm_compute. reflexivity. Qed.\n",
 						w.Name, s.Name, c.Field, w.Name, s.Name, c.Field)
 				case c.Kind == "U":
-					fmt.Fprintf(&sb, "Example %s_wf_cunique_%s_%s : wf_cunique_b %s_schema fm_%s fm_%s = true.\nProof. vm_compute. reflexivity. Qed.\n",
+					fmt.Fprintf(&sb, "Example %s_wf_cunique_%s_%s : wf_cunique_b %s_schema "+pre+"%s "+pre+"%s = true.\nProof. vm_compute. reflexivity. Qed.\n",
 						w.Name, s.Name, c.Field, w.Name, s.Name, c.Field)
 				case c.Kind == "SI" && s.Parent == "":
-					fmt.Fprintf(&sb, "Example %s_wf_setidx_%s_%s : wf_setidx_b %s_schema fm_%s fm_%s = true.\nProof. vm_compute. reflexivity. Qed.\n",
+					fmt.Fprintf(&sb, "Example %s_wf_setidx_%s_%s : wf_setidx_b %s_schema "+pre+"%s "+pre+"%s = true.\nProof. vm_compute. reflexivity. Qed.\n",
 						w.Name, s.Name, c.Field, w.Name, s.Name, c.Field)
 				case c.Kind == "SI":
 					fmt.Fprintf(&sb, "(* set index %s.%s is owned by a child store: outside wf_setidx_b (it demands a root store), see the note below *)\n",
